@@ -109,7 +109,7 @@ class Tokenizer:
                     if paren_level[-1] == opener:
                         paren_level.pop()
                     else:
-                        raise SyntaxError(f"Unmatched closing paren {tok.string} at {tok.start}")
+                        raise self._syntax_error(f"Unmatched closing paren {tok.string} at {tok.start}", tok)
             else:
                 if tok.is_exact_type(")"):
                     self._stack.append(tok)
